@@ -542,12 +542,17 @@ deriving Repr
 
 /-- the point extraction of a gridded file: the gridded variables are carried by (TSTEP, LAY, POINTS), the file has no
 ROW / COL any more, the origin is left alone; `updatemeta()` then finds no variable with standard dimensions -/
+def pointsDims (d : List String) : List String :=
+  if d == stdG then ["TSTEP", "LAY", "POINTS"] else
+  d.filter (fun k => k != "ROW" && k != "COL") ++ (if d.contains "ROW" || d.contains "COL" then ["POINTS"] else [])
+
+def pointsVar (v : DVar) : DVar := { v with dims := pointsDims v.dims }
+
+def pointsPre (s : St) : St :=
+  copyVarsInto { shell s with grid := false, nR := 0, nC := 0 } { s with vars := s.vars.map pointsVar } id
+
 def opPoints (s : St) : Option St :=
-  if !s.grid then none else
-  let vs := s.vars.map (fun v => if v.dims == stdG then { v with dims := ["TSTEP", "LAY", "POINTS"] } else
-    { v with dims := v.dims.filter (fun d => d != "ROW" && d != "COL") ++
-        (if v.dims.contains "ROW" || v.dims.contains "COL" then ["POINTS"] else []) })
-  some (updatemeta (copyVarsInto { shell s with grid := false, nR := 0, nC := 0 } { s with vars := vs } id))
+  if !s.grid then none else some (updatemeta (pointsPre s))
 
 def xstep (s : St) : XOp → Option St
   | .op o => step s o
